@@ -106,6 +106,12 @@ class PropBase:
     def make(self, init):
         return St(World(init))
 
+    def make_empty(self):
+        """A state object without sessions (used only for bookkeeping when set-up itself failed)."""
+        st = St(World({"op": "init", "sessions": []}))
+        st.x = {}
+        return st
+
     def next_op(self, st, rng):
         raise NotImplementedError
 
@@ -137,6 +143,9 @@ class PropBase:
         return st.w.digest()
 
     def summary(self, st):
+        if not st.x:
+            return {"events": 0, "nontrivial": False, "dkey": 0, "reach": {}, "matrix": {}, "faults": {}, "personality": "-",
+                    "sigs": set(), "trigrams": set(), "vtime": 0, "discarded": 0}
         return {
             "events": st.w.events,
             "nontrivial": bool(self.nontrivial(st)),
